@@ -54,7 +54,7 @@ def gen_events(rng, n_lo=3, n_hi=8, with_disk=True) -> list:
 
 
 def gen_save_load(rng) -> dict:
-    ev: dict[str, Any] = {"ev": "save_load", "write_faults": {}, "read_faults": {}, "crash": None, "buffer": rng.choice([64, 512, 8192, 8192]), "same_path": rng.random() < 0.7}
+    ev: dict[str, Any] = {"ev": "save_load", "write_faults": {}, "read_faults": {}, "crash": None, "buffer": rng.choice([64, 512, 8192, 8192]), "same_path": rng.random() < 0.7, "writeback": rng.random() < 0.8}
     r = rng.random()
     if r < 0.35:
         pass  # fault free
@@ -520,6 +520,8 @@ def _save_load(plan, ev, model, x, world: World, viol, bump, site0, idx):
             bump("roundtrips_verified")
         except Exception as e:
             viol("C13", "raises", {"error": f"{type(e).__name__}: {str(e)[:300]}"}, f"{site0}/save_load/call")
+        if ev.get("writeback", True):
+            disk.sync()  # checkpoints are minutes apart: the page cache has been written back before the next one
         return loaded
     # After a crash or a failed save the statement promises nothing about durability. What is still decidable and sound
     # is the classic crash-consistency clause "old or new, never garbage": if load *returns*, the model must be the one
